@@ -81,7 +81,11 @@ func (n *Namer) Key(key any) string {
 // InstallHooks routes the library's verifhook points to this run.
 func (r *Run) InstallHooks(n *Namer) {
 	verifhook.SetPoint(func(site string, key any) {
-		r.ParkHook(site, n.Key(key), nil)
+		who := n.Key(key)
+		if r.SkipPoint != nil && r.SkipPoint(site, who) {
+			return
+		}
+		r.ParkHook(site, who, nil)
 	})
 	verifhook.SetLockWait(func(site string, key any, lock any) {
 		r.ParkHook(site, n.Key(key), lockProbe(lock))
